@@ -134,6 +134,11 @@ def worker(job):
         with real.guard(10), real.quiet():
             g = real.Grammar.from_string(text)
             used = {k: v for k, v in actions.items() if k in g.terminals or k in g.nonterminals}
+            if used and job["seed"] % 2 == 0:
+                # the Grammar object has served a parser with ANOTHER (non-empty) action table before: an action for every symbol; the judged
+                # table replaces it entirely (round-5 seeded change C09-g: symbols the later table omits kept the earlier table's action)
+                decoy = {n: (lambda ctx, x, **kw: ("decoy",)) for n in list(g.nonterminals) + [t for t in g.terminals if t not in ("EMPTY", "STOP")]}
+                real.Parser(g, actions=decoy)
             p1 = real.Parser(g, actions=used)
             p2 = real.Parser(g, actions=used, build_tree=True)
             p3 = real.GLRParser(g, actions=used)
